@@ -1,8 +1,10 @@
 (* C04 -- with raw HTML off, output is well-formed and contains only renderer-made
-   markup.  Renderer side: statements for ALL token lists without html tokens.  Only
-   statements and [exact]. *)
-From MD Require Import Base.Py Base.Str Base.Opt Model.Token Model.Utils Model.Render
-     Lemmas.EscapeLemmas Lemmas.RenderLemmas.
+   markup.  Renderer side: statements for ALL token lists without html tokens.  Parser side,
+   block half: for EVERY source and configuration the tag of every token the block parser
+   appends comes from a fixed vocabulary of 19 names (or is empty), and html_block tokens exist
+   only when options.html is on (C04_block_tags_from_vocabulary).  Only statements and [exact]. *)
+From MD Require Import Base.Py Base.Str Base.Opt Model.Token Model.Utils Model.Render Model.StateBlock Model.Block
+     Lemmas.EscapeLemmas Lemmas.RenderLemmas Lemmas.BlockKinds.
 
 (* for EVERY string: the escaped form contains no < > double-quote, and every & in it
    begins one of the four entities the escaper itself writes *)
@@ -38,3 +40,13 @@ Print Assumptions C04_chunk_shape.
 Theorem C04_attrs_escaped : forall tags t, forallb (chunk_ok tags) (render_attrs t) = true.
 Proof. exact render_attrs_ok. Qed.
 Print Assumptions C04_attrs_escaped.
+
+(* parser side, block half: tags from the fixed vocabulary; html_block only with options.html *)
+Theorem C04_block_tags_from_vocabulary :
+  forall cfg reformat casefold, chains_sub cfg ->
+  forall src env toks st,
+    block_parse cfg reformat casefold src env toks = Ok st ->
+    exists seg, b_tokens st = toks ++ seg
+                /\ Forall (fun t => In (ttag t) block_tags /\ (ttype t = nm_html_block -> c_html cfg = true)) seg.
+Proof. exact block_parse_tags. Qed.
+Print Assumptions C04_block_tags_from_vocabulary.
